@@ -74,9 +74,10 @@ pub fn run_limited(bin: &Path, args: &[String], cwd: Option<&Path>, cpu_s: u32) 
 pub static PROVER_DIR: std::sync::OnceLock<PathBuf> = std::sync::OnceLock::new();
 pub static SLOW_BUT_TERMINATING: std::sync::atomic::AtomicU64 = std::sync::atomic::AtomicU64::new(0);
 static CONFIRMED_HANGS: std::sync::atomic::AtomicU64 = std::sync::atomic::AtomicU64::new(0);
+static EXTENDED_RUNS: std::sync::atomic::AtomicU64 = std::sync::atomic::AtomicU64::new(0);
 
 /// same, with the input given on stdin (the commands read stdin when no file is named). A run
-/// that exceeds the CPU-time limit is repeated once with fifteen times the limit: only a run that
+/// that exceeds the CPU-time limit is repeated once with ten times the limit: only a run that
 /// exceeds that as well is a hang (an input that is merely slow, e.g. 400 nested unary minus
 /// signs in the unoptimised build, terminates within it). After three confirmed hangs further
 /// limit-exceeders are not re-run and count as inconclusive.
@@ -84,16 +85,19 @@ pub fn run_limited_stdin(bin: &Path, args: &[String], cwd: Option<&Path>, cpu_s:
     use std::sync::atomic::Ordering;
     match run_once(bin, args, cwd, cpu_s, stdin) {
         Class::Hang => {
-            if CONFIRMED_HANGS.load(Ordering::Relaxed) >= 3 {
-                return Class::Inconclusive("exceeded the CPU-time limit; not re-run with the extended limit after three confirmed hangs".into());
+            // at most three extended re-runs per check (they may run side by side)
+            if CONFIRMED_HANGS.load(Ordering::Relaxed) >= 3 || EXTENDED_RUNS.fetch_add(1, Ordering::Relaxed) >= 3 {
+                return Class::Inconclusive("exceeded the CPU-time limit; not re-run with the extended limit (three extended re-runs per check)".into());
             }
-            match run_once(bin, args, cwd, cpu_s * 15, stdin) {
+            match run_once(bin, args, cwd, cpu_s * 10, stdin) {
                 Class::Hang => {
                     CONFIRMED_HANGS.fetch_add(1, Ordering::Relaxed);
                     Class::Hang
                 }
                 other => {
+                    // a slow input does not use up the allowance
                     SLOW_BUT_TERMINATING.fetch_add(1, Ordering::Relaxed);
+                    EXTENDED_RUNS.fetch_sub(1, Ordering::Relaxed);
                     other
                 }
             }
@@ -698,6 +702,13 @@ fn verify_case(cfg: &Config, tmp: &Path, corpus: &[(Kind, String)], idx: u64, r:
         _ => {}
     }
     if r.chance(1, 12) {
+        // declared predicates of enormous arity that no program mentions (accepted: nothing is
+        // ever instantiated for them)
+        let huge = ["18446744073709551615", "9223372036854775807", "4294967296", "65536"][r.upto(4)];
+        t.ug.push_str(&format!("\n{}: zz/{huge}.", ["output", "input", "output"][r.upto(3)]));
+        st.inc("verify_inputs_with_a_declared_predicate_of_enormous_arity");
+    }
+    if r.chance(1, 12) {
         // accepted inputs that leave nothing to prove: empty and comment-only programs
         let blank = |r: &mut Rng| ["", "% nothing here\n", "\n\n", "%* block comment *%\n"][r.upto(4)].to_string();
         t.right = blank(r);
@@ -806,7 +817,7 @@ pub fn run(cfg: &Config) -> i32 {
         Outcome {
             stats,
             level: "exploration",
-            rule: "byte strings up to 4 KB: files of res/examples and generated programs/theories/specifications/user guides mutated by token deletion/duplication/swap, numeral inflation to and beyond the isize/usize limits, operator soup, unbalanced and deep nesting, huge arities, role swaps, truncation, control and non-ASCII characters, empty and comment-only files; every input goes through a pre-filter (the same library calls the commands make, with catch_unwind, run in a child process under a CPU-time limit so that a hang or stack overflow of the library is attributed to its input); every candidate and a random sample of non-candidates is run through the real binary in a subprocess in release and dev profile, plus `verify --no-proof-search` on task directories with one mutated file; classification by exit status, signal, stderr and CPU-time limit (20 s; a run over the limit is repeated with 300 s and only a run over that is a hang), wall-clock watchdog = inconclusive; a case is a distinct input text".into(),
+            rule: "byte strings up to 4 KB: files of res/examples and generated programs/theories/specifications/user guides mutated by token deletion/duplication/swap, numeral inflation to and beyond the isize/usize limits, operator soup, unbalanced and deep nesting, huge arities, role swaps, truncation, control and non-ASCII characters, empty and comment-only files; every input goes through a pre-filter (the same library calls the commands make, with catch_unwind, run in a child process under a CPU-time limit so that a hang or stack overflow of the library is attributed to its input); every candidate and a random sample of non-candidates is run through the real binary in a subprocess in release and dev profile, plus `verify --no-proof-search` on task directories with one mutated file; classification by exit status, signal, stderr and CPU-time limit (20 s; a run over the limit is repeated with 200 s and only a run over that is a hang; at most three such re-runs per check, further limit-exceeders are inconclusive), wall-clock watchdog = inconclusive; a case is a distinct input text".into(),
             assumptions: vec!["a non-zero exit with a message on stderr and no `panicked at` is a reported error".into()],
             floor: cfg.pick(2_000, 20_000),
             floor_counter: "subprocess_runs".into(),
